@@ -420,7 +420,12 @@ func (client *client) readLoop() {
 				}
 			}
 		}
-		client.in <- packet
+		select {
+		case client.in <- packet:
+		case <-client.close:
+			// nothing consumes client.in any more (handshake failed or readHandle returned)
+			return
+		}
 		<-client.connected
 		srv.statsManager.packetReceived(packet, client.opts.ClientID)
 		if client.server.config.Log.DumpPacket {
